@@ -249,6 +249,25 @@ def step (st : Store) (line : String) : Store × String :=
       | some e => ({ st with iters := st.iters.insert dst (pn, e.iter) }, "ok")
       | none => (st, "bad-ref")
     | _, _ => (st, "bad-ref")
+  | ["elemset", es, k, kind, v] =>
+    -- an edit through the element's own iterator (`es.Elements[k].Iter.SetBool(…)`): tape and that iterator change,
+    -- the element's recorded Type does not
+    match st.elems[es]?, k.toNat? with
+    | some (pn, arr), some k =>
+      match arr[k]?, st.pjs[pn]? with
+      | some e, some pj =>
+        let r : Res (PJ × Iter) :=
+          if kind == "bool" then e.iter.setBool pj (v == "1")
+          else if kind == "null" then e.iter.setNull pj
+          else match v.toInt? with
+            | some z => e.iter.setInt pj z
+            | none => .error .generic
+        match r with
+        | .ok (pj', i') =>
+          ({ st with pjs := st.pjs.insert pn pj', elems := st.elems.insert es (pn, arr.set! k { e with iter := i' }) }, "ok")
+        | r => (st, resStr r (fun _ => ""))
+      | _, _ => (st, "bad-ref")
+    | _, _ => (st, "bad-ref")
   | ["emarshal", es] =>
     match st.elems[es]? with
     | none => (st, "bad-ref")
